@@ -469,9 +469,20 @@ impl Monitor for C03 {
             s.push(spec::engine::stream("v2-ctl-s", tier.n(0, 400_000, 20_000_000)));
         }
         s.extend(tlv_streams(tier, 4_000));
+        s.push(spec::engine::exhaustive("calling-context", 2));
         spec::engine::sample_sweeps(s, tier, 3, 3)
     }
     fn run_case(&self, stream: &str, idx: u64, seed: u64, rec: &mut Recorder) {
+        if stream == "calling-context" {
+            // the same calls from an ordinary place, a second time, and from a thread-local
+            // destructor at thread exit (pure functions do not depend on where they are called)
+            let _ = (idx, seed);
+            if spec::engine::layer().starts_with("miri") {
+                return;
+            }
+            crate::adapt::judge_context(&["C03", "C06", "C08", "C10", "C16", "C19", "C20"], rec);
+            return;
+        }
         if stream.starts_with("v1-") {
             let input = v1_case(stream, idx, seed);
             spec::sib::run_v1(&input, idx, if stream.contains("sweep") { 16 } else { 4 }, |x| drive(x, "v1", rec));
